@@ -201,10 +201,14 @@ class Gen:
             # a slow producer: virtual seconds pass inside some of its pulls
             slow = tuple((0.0, 0.05, 0.3, 2.0)[self.ch.draw(4)] for _ in range(3))
         equal = self.equal_sources and fl in ("aiter_cls", "aiter_full", "aiter_noclose")
-        return SrcPlan(name, items, fl, susp, ac, aclose_mode=mode, falsy=falsy, resilient=resilient, equal=equal, slow=slow,
+        plan = SrcPlan(name, items, fl, susp, ac, aclose_mode=mode, falsy=falsy, resilient=resilient, equal=equal, slow=slow,
                        dual=fl == "aiter_cls" and bool(self.cfg.odd_sources) and self.ch.chance(1, 8),
                        lazy_open=fl in ("aiter_cls", "aiter_full") and bool(self.cfg.odd_sources) and self.ch.chance(1, 8),
                        hand_next=fl == "aiter_cls" and bool(self.cfg.odd_sources) and self.ch.chance(1, 8))
+        if fl == "sync_iter" and self.cfg.odd_sources and not falsy and self.ch.chance(1, 3):
+            # a regular generator object: the tools read it, its owner goes on reading it afterwards - it is not theirs to close
+            plan.as_gen = True
+        return plan
 
     def fn(self, kind, param=0):
         fls = self.cfg.fn_flavours
